@@ -33,6 +33,12 @@ func (controller *ProgressController) GetTransactionProgress(writer http.Respons
 		response.Write(http.StatusBadRequest, errorMessage)
 		return
 	}
+	if searchedUtxo == nil || searchedUtxo.InputInfo == nil || searchedUtxo.Output == nil {
+		errorMessage := "failed to decode utxo"
+		controller.logger.Error(errorMessage)
+		response.Write(http.StatusBadRequest, errorMessage)
+		return
+	}
 	utxosBytes, err := controller.sender.GetUtxos(searchedUtxo.Address())
 	if err != nil {
 		errorMessage := "failed to get UTXOs"
